@@ -280,6 +280,9 @@ func check(id, tier string) int {
 				case err := <-done:
 					if err != nil {
 						errs[i] = fmt.Sprintf("worker %d: %v\n%s", i, err, tail(stderr.String(), 4000))
+						// the job this worker held is lost: let the others stop
+						// instead of waiting for it until the deadline
+						nd.AbortQueue(filepath.Join(scratch, pt.Name+".queue"))
 					}
 				case <-time.After(budget + 120*time.Second):
 					cmd.Process.Kill()
